@@ -466,6 +466,7 @@ fn one_case_s(rng: &mut Rng, sink: &mut Sink) {
                 other => { sink.line(&op, &format!("err {:?}", other)); sink.monitor_fail("peeropen_failed", &format!("{:?}", other)); return; }
             }
             let fr = e.rec.take();
+            for f in &fr { if let Some(v) = f.strip_prefix("MD:") { let v: u64 = v.parse().unwrap(); if v < conn_adv { sink.monitor_fail("advertised_max_data_decreased", &format!("{} < {}", v, conn_adv)); } conn_adv = conn_adv.max(v); } }
             next_peer[dir as usize] += 1;
             if bi {
                 let (s2, r, wr) = e.accept_bi().expect("accept_bi");
